@@ -132,7 +132,7 @@ Proof.
       pose proof (wtc_tmp_prep t0 o) as Hw1; set (t1 := tmp_prep t0 o) in *
   end.
   apply iwk_of_wtc in Hw1.
-  destruct (apply3way otree (t_tmp_content t1) _) as [merged|].
+  destruct (apply3way _ otree (t_tmp_content t1) _) as [merged|].
   - split; [|discriminate]. apply (iwk_trans _ _ _ Hw1). apply iwk_set_tmp.
   - assert (Ho : o_use_iw (t_opts (set_tmp t1 None (t_tmp_content t1))) = false).
     { rewrite (iwk_use_iw _ _ (iwk_set_tmp t1 None (t_tmp_content t1))).
